@@ -118,7 +118,12 @@ class C11(Check):
                 d, s = gen_pair(rng)
                 spec['conns'][0]['delay'], spec['conns'][0]['spread'] = d, s
             cfg['vectorize'] = True
-            cfg['dde_approx'] = 0
+            # dde_approx is passed along in a third of the runs: a connection that carries a spread keeps its own order
+            # round((d/s)^2) whatever dde_approx says (every delayed connection generated here has a spread)
+            cfg['dde_approx'] = rng.choice([0, 0, 2, 3])
+            for c in spec['conns']:
+                if not c.get('spread'):
+                    c['delay'] = None
             return {'spec': spec, 'cfg': cfg}
         pairs = [gen_pair(rng) for _ in range(3)]
 
